@@ -93,7 +93,7 @@ Definition proj_spec (proj : string) (mac0 : bytes) (d : ra_info) : string :=
   else if String.eqb proj "hdr" then
     "M" ++ sb (ra_managed d) ++ " O" ++ sb (ra_other d) ++ " prf" ++ dec_of_N (ra_prf d) ++ " hop" ++ dec_of_N (ra_hop d)
     ++ " life" ++ dec_of_N (ra_life d) ++ " reach" ++ dec_of_N (ra_reach d) ++ " retr" ++ dec_of_N (ra_retrans d)
-    ++ " mac" ++ hx (lastd (sllas os) mac0)
+    ++ " mac" ++ hx mac0        (* the MAC the entry was created with: computed by the caller *)
   else if String.eqb proj "slla" then hx (lastd (sllas os) [])
   else if String.eqb proj "omtu" then dec_of_N (lastd (mtus os) 0)
   else if String.eqb proj "rmtu" then dec_of_N (lastd (mtus os) 0)
@@ -114,6 +114,9 @@ Definition show_ret (r : res unit) : string := show_res (fun _ => "ok") r.
 
 Definition xn_area (p : bytes) : bool := has_xn (skipn 16 p).
 
+Definition learned_mac_s (d : ra_info) (eth : bytes) : bytes :=
+  let m := lastd (sllas (ra_opts d)) [] in if (List.length m =? 6)%nat then m else eth.
+
 Definition do_ra (proj : string) (p : bytes) : string :=
   let '(st, o) := rx_ra (init 3) std_src std_eth p true in
   let m :=
@@ -130,7 +133,35 @@ Definition do_ra (proj : string) (p : bytes) : string :=
   if blen p <? 16 then out3 m "-" "-" else
   match ra_decode_lenient p with
   | Some d => if String.eqb proj "legacy" then out3 m "-" "-" else
-              out3 m (proj_spec proj std_eth d) "-"
+              out3 m (proj_spec proj (learned_mac_s d std_eth) d) "-"
+  | None => out3 m "err:EOther" "-"
+  end.
+
+(* ---------------- kind ra2: a NEW entry by <msg1> from Ethernet source <eth1>, then an UPDATE by <msg2> from <eth2>,
+   same IPv6 source; observed after the second advertisement ---------------- *)
+Definition do_ra2 (proj : string) (e1 p1 e2 p2 : bytes) : string :=
+  let '(st1, o1) := rx_ra (init 3) std_src e1 p1 true in
+  let st1' := mkSt (hunt st1) (loops st1) (routers st1) (defrouter st1) 3%Z (closed st1) in
+  let '(st, o) := rx_ra st1' std_src e2 p2 true in
+  let m :=
+    match o with
+    | ORA (Ok _) =>
+        match rt_find (routers st) std_src with
+        | Some r => if String.eqb proj "dnssl" && xn_area p2 then "puny" else proj_model proj r
+        | None => "none"
+        end
+    | ORA r => show_ret r
+    | _ => "?"
+    end in
+  if xn_area p2 || xn_area p1 then out3 m "-" "-" else
+  if (blen p2 <? 16) || (blen p1 <? 16) then out3 m "-" "-" else
+  match ra_decode_lenient p2 with
+  | Some d2 => if String.eqb proj "legacy" then out3 m "-" "-" else
+               let mac := match ra_decode_lenient p1 with
+                          | Some d1 => learned_mac_s d1 e1     (* the entry was created by the first advertisement *)
+                          | None => learned_mac_s d2 e2
+                          end in
+               out3 m (proj_spec proj mac d2) "-"
   | None => out3 m "err:EOther" "-"
   end.
 
@@ -245,6 +276,15 @@ Definition dispatch (kind : string) (args : list string) : string :=
   if String.eqb kind "ra" then
     match args with
     | [proj; h] => match bytes_of_tok h with Some p => do_ra proj p | None => BADARGS end
+    | _ => BADARGS
+    end
+  else if String.eqb kind "ra2" then
+    match args with
+    | [proj; e1; h1; e2; h2] =>
+        match bytes_of_tok e1, bytes_of_tok h1, bytes_of_tok e2, bytes_of_tok h2 with
+        | Some a, Some b, Some c, Some d => do_ra2 proj a b c d
+        | _, _, _, _ => BADARGS
+        end
     | _ => BADARGS
     end
   else if String.eqb kind "h" then
